@@ -1,9 +1,131 @@
-(** C12 — exported statements only. *)
+(** C12 — Oracle penalties and rewards follow actual voting behaviour.
+    Exported statements only; every proof is [exact <lemma>].  Model: Nib.C12.Model on top of
+    Nib.C10.Model; [true] = current code, [false] = SlashAndResetMissCounters before commit fe7d502. *)
 From Coq Require Import ZArith List Bool Arith.
 Import ListNotations.
-Require Import Nib.Lib.Dec Nib.C10.Model Nib.C12.Model Nib.C12.Spec Nib.C12.Proofs.
+Require Import Nib.Lib.Dec Nib.C10.Model Nib.C10.Spec Nib.C10.ProofsMedian Nib.C10.ProofsUpdate.
+Require Import Nib.C12.Model Nib.C12.Spec Nib.C12.Proofs.
 Local Open Scope Z_scope.
 
+(** FULL STATEMENT over histories.  From any state satisfying the invariant (in particular the empty
+    one), for every history of EndBlocker calls (arbitrary validator sets with distinct ids and
+    non-negative power, arbitrary Votes stores, heights, staking answers), funded reward allocations and
+    staking operations: the sequence of observations produced by the model satisfies [P_history] — after
+    every step inside the overflow-free domain: no panic; miss counters = previous counters + number of
+    quorum pairs with a positive out-of-band vote (reset at a window end); exactly the existing, bonded,
+    unjailed validators with a low valid-vote rate are jailed and burned; one period of every allocation
+    is consumed iff somebody has reward weight; every eligible validator is credited its pro-rata share
+    (never more, less by under one unit + 10^-18 relative), nobody else anything, the sum at most the pot;
+    the module pays exactly what was credited and stays solvent. *)
+Theorem C12_history_holds :
+  forall q ops s e0, inv s -> Forall wf_op ops -> P_history q (obs_of s e0) (run_obs true q s ops).
+Proof. exact history_P. Qed.
+Print Assumptions C12_history_holds.
+
+Theorem C12_empty_state_satisfies_invariant : inv (mkOS [] [] []).
+Proof. exact inv_empty. Qed.
+Print Assumptions C12_empty_state_satisfies_invariant.
+
+(** The Tally loop (sorted votes, performance map, missedValidators set) yields for every eligible
+    validator exactly the declarative reward weight and miss count. *)
+Theorem C12_tally_is_declarative :
+  forall p st id, In id (eligible_ids st) ->
+  pf_get id (tally_all p st) = (spec_weight p st id, spec_miss p st id).
+Proof. exact tally_all_get. Qed.
+Print Assumptions C12_tally_is_declarative.
+
+(** A miss counter grows at a period end by exactly the number of quorum pairs on which the validator
+    (eligible: bonded, within MaxValidators) submitted a positive rate outside the reward band ... *)
+Theorem C12_miss_counter_growth :
+  forall p st mc id, ids_nodup st -> mc_sorted mc ->
+  mc_get id (exp_miss p st mc) = mc_get id mc + (if memb id (eligible_ids st) then spec_miss p st id else 0).
+Proof. exact miss_counter_growth. Qed.
+Print Assumptions C12_miss_counter_growth.
+
+Theorem C12_miss_only_when_positive_out_of_band_on_quorum_pair :
+  forall p st id,
+  0 < spec_miss p st id <->
+  exists pr v, quorum p st pr /\ In v (pair_votes st pr) /\ pv_voter v = id /\ 0 < pv_rate v /\
+               inside_b (p_reward_band p) (pair_votes st pr) (wmedian true (pair_votes st pr)) v = false.
+Proof. exact spec_miss_pos_iff. Qed.
+Print Assumptions C12_miss_only_when_positive_out_of_band_on_quorum_pair.
+
+(** ... hence abstaining (rate <= 0), not voting at all, or voting only in band never counts as a miss. *)
+Theorem C12_abstain_never_miss :
+  forall p st mc id, ids_nodup st -> mc_sorted mc ->
+  (forall pr v, quorum p st pr -> In v (pair_votes st pr) -> pv_voter v = id -> 0 < pv_rate v ->
+                inside_b (p_reward_band p) (pair_votes st pr) (wmedian true (pair_votes st pr)) v = true) ->
+  mc_get id (exp_miss p st mc) = mc_get id mc.
+Proof. exact abstain_never_miss. Qed.
+Print Assumptions C12_abstain_never_miss.
+
+(** Slash window: who is slashed, by how much, and what the valid-vote rate is. *)
+Theorem C12_slash_exactly_low_valid_rate_bonded_unjailed :
+  forall q mc sv,
+  slashed_b q mc sv = true <->
+  (exists c, In (sv_id sv, c) mc /\ low_rate q c = true) /\
+  sv_exists sv = true /\ sv_bonded sv = true /\ sv_jailed sv = false.
+Proof. exact slashed_b_iff. Qed.
+Print Assumptions C12_slash_exactly_low_valid_rate_bonded_unjailed.
+
+Theorem C12_slash_effect :
+  forall q pr mc svs sv, In sv svs ->
+  In (if slashed_b q mc sv then (sv_id sv, true, sv_tokens sv - slash_burn q pr sv)
+      else (sv_id sv, sv_jailed sv, sv_tokens sv)) (slash_post q pr mc svs).
+Proof. exact slash_post_exact. Qed.
+Print Assumptions C12_slash_effect.
+
+Theorem C12_valid_rate_uint64_wrap_is_benign :
+  forall P miss, - 2 ^ 63 <= P - miss < 2 ^ 63 -> valid_rate P miss = Z.quot ((P - miss) * PREC) P.
+Proof. exact valid_rate_exact. Qed.
+Print Assumptions C12_valid_rate_uint64_wrap_is_benign.
+
+Theorem C12_counters_reset :
+  forall fx q s st svs h s' e,
+  end_block12 fx q s st svs h = ROk s' e -> is_period_last h (op_slash_window q) = true -> os_miss s' = [].
+Proof. exact counters_reset. Qed.
+Print Assumptions C12_counters_reset.
+
+(** Rewards: pro rata with truncation, and bounded by the pot. *)
+Theorem C12_rewards_split_pro_rata :
+  forall amt w W, 0 <= amt -> 0 <= w -> 0 < W -> fair_share amt w W (portion amt w W).
+Proof. exact portion_fair. Qed.
+Print Assumptions C12_rewards_split_pro_rata.
+
+Theorem C12_rewards_sum_bounded_by_pot :
+  forall amt W ws, 0 <= amt -> 0 < W -> (forall w, In w ws -> 0 <= w) -> fold_right Z.add 0 ws <= W ->
+  fold_right Z.add 0 (map (fun w => portion amt w W) ws) <= amt.
+Proof. exact portion_sum_le. Qed.
+Print Assumptions C12_rewards_sum_bounded_by_pot.
+
+(** Module solvency over all histories: after every step that did not panic (inside or outside the
+    domain) the module balance covers coins-per-period * remaining periods of every allocation. *)
+Theorem C12_module_solvent :
+  forall q ops s, inv s -> Forall wf_op ops ->
+  Forall (fun x => so_panic (snd x) = false -> solvent (snd x)) (run_obs true q s ops).
+Proof. exact history_solvent. Qed.
+Print Assumptions C12_module_solvent.
+
+(** No panic inside the domain (a step of the model panics only outside it). *)
+Theorem C12_step_holds_and_preserves_invariant :
+  forall q s e0 o, inv s -> wf_op o ->
+  match step true q s o with
+  | RPanic => match o with OEnd st _ _ => dom12 q st = false | _ => False end
+  | ROk s' e => P_step q (obs_of s e0) o (obs_of s' e) /\ inv s'
+  end.
+Proof. exact step_P. Qed.
+Print Assumptions C12_step_holds_and_preserves_invariant.
+
+(** The boolean checker evaluated on implementation traces is sound for P_history. *)
 Theorem C12_checker_sound : forall q l prev, Pb_history q prev l = true -> P_history q prev l.
 Proof. exact Pb_history_sound. Qed.
 Print Assumptions C12_checker_sound.
+
+(** Before commit fe7d502 a miss counter of a validator that was removed from staking made the window
+    end panic (chain halt); the current code resets the counters. *)
+Theorem C12_refuted_before_fix :
+  exists q s st svs h, inv s /\ wf st /\ ids_nodup st /\ dom12 q st = true /\
+                       end_block12 false q s st svs h = RPanic /\
+                       exists s' e, end_block12 true q s st svs h = ROk s' e /\ os_miss s' = [].
+Proof. exact refuted_before_fix. Qed.
+Print Assumptions C12_refuted_before_fix.
